@@ -78,6 +78,8 @@ func ruleDbIterGuards(p *Prog, r *Report, rule string) {
 		G := func(a []bool) bool { return a[0] && a[1] && a[2] && (a[3] || a[4]) }
 		gd := "kerr==nil ∧ seq<=i.seq ∧ kind==Val ∧ (dir==SOI ∨ uCompare(ukey,i.key)>0)"
 		checkGuard(p, r, GuardSpec{Rule: "surface", Fn: fn, Starts: after(fn, parse), Target: retConstBool(true), TargetDesc: "return true (an entry is surfaced)", Atoms: atoms, G: G, GDesc: gd, Avoid: orPred(parse, innerNext), MinTargets: 1})
+		checkGuardExact(p, r, GuardSpec{Rule: "surface", Fn: fn, Starts: after(fn, parse), Target: retConstBool(true), TargetDesc: "the entry is surfaced", Atoms: append(append([]Atom{}, atoms...), isDel), G: G, GDesc: gd, Avoid: parse,
+			Consistent: func(a []bool) bool { return !(a[2] && a[5]) }}, innerNext, "the next raw entry")
 		checkGuard(p, r, GuardSpec{Rule: "value-copied", Fn: fn, Starts: after(fn, parse), Target: storeF("value"), TargetDesc: "store to i.value", Atoms: atoms, G: G, GDesc: gd, Avoid: orPred(parse, innerNext), MinTargets: 1})
 		// a visible tombstone records the key (so older versions of it are skipped)
 		// formulated as: under kerr==nil ∧ seq<=i.seq ∧ kind==Del, moving to the next raw entry passes a store to i.key
